@@ -2,6 +2,7 @@ package netsim
 
 import (
 	"fmt"
+	"reflect"
 
 	tcpip "github.com/brewlin/net-protocol/protocol"
 	"github.com/brewlin/net-protocol/protocol/network/arp"
@@ -97,4 +98,26 @@ func NewStack(tap *Tap, cfg StackCfg) *stack.Stack {
 		}
 	}
 	return s
+}
+
+// StatsString renders the non-zero counters of a stack.
+func StatsString(s *stack.Stack) string {
+	out := ""
+	var walk func(prefix string, v reflect.Value)
+	walk = func(prefix string, v reflect.Value) {
+		for i := 0; i < v.NumField(); i++ {
+			f := v.Field(i)
+			name := prefix + v.Type().Field(i).Name
+			switch f.Kind() {
+			case reflect.Ptr:
+				if c, ok := f.Interface().(*tcpip.StatCounter); ok && c != nil && c.Value() != 0 {
+					out += fmt.Sprintf("%s=%d ", name, c.Value())
+				}
+			case reflect.Struct:
+				walk(name+".", f)
+			}
+		}
+	}
+	walk("", reflect.ValueOf(s.Stats()))
+	return out
 }
